@@ -6,10 +6,17 @@ LEVEL_TEXT = ("K: has_small_order blocklist membership, the all-zero output test
 TRUSTED = ["CBMC 6.11", "RFC 7748 commutativity X25519(a, X25519(b, 9)) = X25519(b, X25519(a, 9)) (assumed per key pair)",
            "the list of 7 low-order/non-canonical encodings is complete (Bernstein; trusted)"]
 ASSUMPTIONS = []
-OUTSIDE = ["correctness of the Montgomery ladder formulas and field multiplication (algebra over GF(2^255-19): not decidable by bit-blasting)",
+OUTSIDE = ["sequencing of the Montgomery ladder (which field operations are applied in which order) and the inversion chain; the field kernels themselves (mul, sq, mul by 121666, add, sub; 51-bit limbs) ARE decided: E2 limb mode, congruence mod 2^255-19 with limb bounds",
            "sandy2x assembly back end", "base-point table contents"]
 
 COMMON = ["sodium/utils.c", "crypto_verify/verify.c"]
+
+
+E2_LIMB = ['fe25519-51-x25519']
+
+
+LEVEL_TEXT = LEVEL_TEXT + (" Field kernels (E2 irsym limb mode): the compiled fe25519_mul/sq/mul32/add/sub of the X25519 unit are executed on LLVM IR with limbs as integer polynomials + intervals; "
+              "result == the field operation mod 2^255-19 for all limbs up to 2^54 (no machine wrap-around, output bounds), re-checked by z3 as a polynomial identity.")
 
 
 def obligations(tier):
